@@ -1,6 +1,7 @@
 """C20 — threads and synchronisation primitives.
 Proof: UvModel.Props.C20 over UvModel.ThreadArith (return-code tables, stack-size computation,
-timed-wait deadline).  Tie B: harness/c20_threads.c built twice —
+timed-wait deadline); UvModel.Props.C20Sem over UvModel.CustomSem (the mutex/condvar semaphore used when
+glibc < 2.21; harness/c20_csem.c runs the real one under a serialising scheduler, diffed with `uvdriver csem`).  Tie B: harness/c20_threads.c built twice —
   scripted: pthread/sem/clock/rlimit entry points interposed, real uv_* functions driven with
             scripted answers, every line diffed with `uvdriver threads` and judged by monitors;
   real:     nothing interposed, N threads x M rounds with invariant counters (exclusion, rwlock,
@@ -23,8 +24,13 @@ MANIFEST = {
          "they are hypotheses of the theorems (trylock_ebusy_exact, sem_trywait_eagain_exact, timedwait_not_early) and are "
          "only exercised by the contention monitors on the schedules the OS happened to produce (quick: ASan build; thorough: "
          "additionally a TSan build). Real scheduling and weak memory are not modelled. The mutex/condvar barrier fallback in "
-         "thread-common.c is not compiled on glibc (PTHREAD_BARRIER_SERIAL_THREAD defined) and the custom semaphore "
-         "(glibc < 2.21) is not reachable at run time: neither is modelled. abort() is observed by catching SIGABRT.",
+         "thread-common.c is not compiled on glibc (PTHREAD_BARRIER_SERIAL_THREAD defined): not modelled. The custom "
+         "mutex/condvar semaphore (uv__custom_sem_*, chosen when glibc < 2.21) IS modelled (UvModel.CustomSem, theorem "
+         "never_more_than_initial_plus_posts over every interleaving of its pthread calls) and exercised: "
+         "harness/c20_csem.c answers gnu_get_libc_version() = 2.17 and runs the real uv_sem_* under a serialising "
+         "scheduler whose schedule points are the pthread_mutex_lock/trylock/unlock and pthread_cond_wait/signal calls "
+         "and the operation starts (mutex and condvar simulated with their POSIX meaning; races between two plain "
+         "memory accesses inside one segment are not explored). abort() is observed by catching SIGABRT.",
  "design": "DESIGN.md §3 C20",
  "technique": "Lean 4 proof over executable model + correspondence (symbol interposition unit harness, line diff) + real-thread monitors",
 }
@@ -628,6 +634,213 @@ def default_rule_real(ctx, rexe, vals):
             ctx.nontrivial(f"real-dflt/{v}")
 
 
+# ------------------------------------------------------------------ custom semaphore (glibc < 2.21) under a serialising scheduler
+def csem_monitor(cmd, o):
+    """property text evaluated on the event trace of the real uv__custom_sem_* (no model).  Returns (sig, msg) or None.
+    posts count from the moment uv_sem_post was *entered* (never demands more than the text)."""
+    w = cmd.split()
+    init, progs = int(w[1]), [("" if p == "-" else p) for p in w[2].split("/")]
+    if "|" not in o:
+        return ("harness-protocol", f"`{cmd}` -> `{o}`")
+    evs, tail = o.split("|")
+    tl = tail.split()
+    if len(tl) < 6 or tl[0] != "left" or tl[2] != "then" or tl[4] != "stuck" or "runaway" in evs or "foreign-mutex" in tail:
+        return ("harness-protocol", f"`{cmd}` -> `{o}`")
+    left, then, stuck = int(tl[1]), int(tl[3]), int(tl[5])
+    n = len(progs)
+    opi = [0] * n; mid = [False] * n; alone = [True] * n; avail_at_begin = [0] * n
+    posts_begun = posts_done = acq = 0
+    for ev in evs.split():
+        body, _, ret = ev.partition("=")
+        t = int(body[0]); kind = body[1:]
+        if kind.endswith("!"):
+            return ("csem-mutex-misuse", f"thread {t} released / waited on the semaphore's mutex without owning it (`{ev}`): `{cmd}` -> `{o}`")
+        if kind == "W":
+            continue
+        if kind == "B":
+            mid[t] = True
+            alone[t] = not any(m for j, m in enumerate(mid) if j != t)
+            for j in range(n):
+                if j != t and mid[j]:
+                    alone[j] = False
+            avail_at_begin[t] = init + posts_done - acq
+            if progs[t][opi[t]] == "p":
+                posts_begun += 1
+        if ret != "":
+            op = progs[t][opi[t]]; r = int(ret)
+            if op == "p":
+                posts_done += 1
+                if r != 0:
+                    return ("harness-protocol", f"`{cmd}` -> `{o}`")
+            elif op == "w" or r == 0:
+                acq += 1
+                if acq > init + posts_begun:
+                    why = "uv_sem_trywait returned 0" if op == "t" else "uv_sem_wait returned"
+                    rule = "trywait must give UV_EAGAIN at zero" if op == "t" else "wait must block at zero"
+                    return ("csem-too-many-through",
+                            f"custom (glibc < 2.21) semaphore, initial value {init}: {why} in thread {t} as acquisition #{acq} when only "
+                            f"{posts_begun} uv_sem_post had been entered ({rule}): `{cmd}` -> `{o}`")
+            if op == "t" and r not in (0, -EAGAIN):
+                return ("sem-trywait-undocumented-code", f"custom semaphore: uv_sem_trywait returned {r}: `{cmd}` -> `{o}`")
+            if op == "t" and alone[t]:
+                # nobody else was inside an operation from its start to its end: the answer is determined
+                if avail_at_begin[t] == 0 and r != -EAGAIN:
+                    return ("csem-trywait-zero-not-eagain", f"uncontended uv_sem_trywait at zero returned {r}: `{cmd}` -> `{o}`")
+                if avail_at_begin[t] > 0 and r != 0:
+                    return ("csem-trywait-refused-with-tokens",
+                            f"uncontended uv_sem_trywait with {avail_at_begin[t]} token(s) available returned {r}: `{cmd}` -> `{o}`")
+            mid[t] = False; opi[t] += 1
+    total = init + posts_begun
+    if acq + left > total:
+        return ("csem-too-many-through",
+                f"custom (glibc < 2.21) semaphore, initial value {init}, {posts_begun} posts: {acq} acquisitions got through and {left}"
+                f"{'+' if then == 0 else ''} more tokens could still be taken afterwards (counter wrapped?): `{cmd}` -> `{o}`")
+    if then != -EAGAIN:
+        return ("sem-trywait-undocumented-code", f"custom semaphore: the drain by uv_sem_trywait ended with {then}: `{cmd}` -> `{o}`")
+    if not stuck and acq + left != init + posts_done:
+        return ("sem-count", f"custom semaphore: all threads finished, initial {init} + {posts_done} posts != {acq} acquisitions + {left} left: `{cmd}` -> `{o}`")
+    return None
+
+
+def gen_csem_exhaustive(thorough):
+    """every schedule string of a fixed length over the thread ids, for every small program set"""
+    import itertools
+    ops = ["w", "t", "p"]
+    one = ops + ([a + b for a in ops for b in ops] if thorough else ["tp", "pt", "tt", "wp", "pw"])
+    out = []
+    L = 9 if thorough else 7
+    for init in ((0, 1, 2) if thorough else (0, 1)):
+        for p0 in one:
+            for p1 in one:
+                if len(p0) + len(p1) > 3 and not thorough:
+                    continue
+                for sch in itertools.product("01", repeat=L):
+                    out.append(f"csem {init} {p0}/{p1} {''.join(sch)}")
+    return out
+
+
+def gen_csem_random(rng, n):
+    out = []
+    for _ in range(n):
+        nt = rng.range(2, 5)
+        init = rng.choice([0, 0, 1, 1, 1, 2, 3])
+        progs = []
+        for t in range(nt):
+            k = rng.below(5)
+            bias = rng.choice(["wtp", "wtp", "ttp", "wwp", "ppt", "tw"])
+            progs.append("".join(rng.choice(bias) for _ in range(k)) or "-")
+        L = rng.below(40)
+        sch = ""
+        for _ in range(L):
+            if rng.chance(1, 12):
+                sch += chr(ord("a") + rng.below(nt))
+            elif sch and rng.chance(1, 2) and sch[-1].isdigit():
+                sch += sch[-1]                           # runs of the same thread: whole lock..unlock sections
+            else:
+                sch += str(rng.below(nt))
+        out.append(f"csem {init} {'/'.join(progs)} {sch or '-'}")
+    return out
+
+
+def drv_csem(ctx, text):
+    for i in range(30):
+        try:
+            return ctx.driver(["csem"], text)
+        except (FileNotFoundError, PermissionError, OSError):
+            time.sleep(2)
+    return ctx.driver(["csem"], text)
+
+
+def csem_shrink(ctx, cexe, cmd, sig):
+    """greedy: drop schedule characters and operations while the same monitor still fires"""
+    def fails(c):
+        rc, out, _ = ctx.run(cexe, text=c + "\n", timeout=20)
+        ol = out.splitlines()
+        if rc != 0 or len(ol) != 1:
+            return False
+        b = csem_monitor(c, ol[0])
+        return bool(b) and b[0] == sig
+    w = cmd.split()
+    init, progs, sch = w[1], w[2].split("/"), ("" if w[3] == "-" else w[3])
+    mk = lambda i, p, s_: f"csem {i} {'/'.join(p)} {s_ or '-'}"
+    budget = 200
+    changed = True
+    while changed and budget > 0:
+        changed = False
+        for k in range(len(sch)):
+            budget -= 1
+            if fails(mk(init, progs, sch[:k] + sch[k + 1:])):
+                sch = sch[:k] + sch[k + 1:]; changed = True
+                break
+        if changed:
+            continue
+        for t in range(len(progs)):
+            for k in range(len(progs[t]) if progs[t] != "-" else 0):
+                budget -= 1
+                q = (progs[t][:k] + progs[t][k + 1:]) or "-"
+                if fails(mk(init, progs[:t] + [q] + progs[t + 1:], sch)):
+                    progs = progs[:t] + [q] + progs[t + 1:]; changed = True
+                    break
+            if changed:
+                break
+    return mk(init, progs, sch)
+
+
+def run_csem(ctx, cexe, lines, label, diff=True, shrink=True):
+    text = "\n".join(lines) + "\n"
+    rc, iout, ierr = ctx.run(cexe, text=text, timeout=ctx.scale(120, 900))
+    il = iout.splitlines()
+    ok = True
+    seen = set()
+    blocked_with_token = 0
+    for cmd, o in zip(lines, il):
+        ctx.count()
+        bad = csem_monitor(cmd, o)
+        if bad:
+            ok = False
+            if bad[0] in seen:
+                continue
+            seen.add(bad[0])
+            if shrink and bad[0] != "harness-protocol":
+                small = csem_shrink(ctx, cexe, cmd, bad[0])
+                if small != cmd:
+                    so = ctx.run(cexe, text=small + "\n", timeout=20)[1].splitlines()
+                    b2 = csem_monitor(small, so[0]) if so else None
+                    if b2 and b2[0] == bad[0]:
+                        cmd, bad = small, b2
+            ctx.violation(bad[0], f"C20 ({label}): {bad[1]}", {"mode": "csem", "line": cmd})
+        elif " stuck 1" in o and " left 0 " not in o:
+            blocked_with_token += 1
+    # liveness observation, outside the property text (see Props/C20Sem.lean, last example): not judged
+    ctx.notes["csem_blocked_waiter_with_token_left"] = ctx.notes.get("csem_blocked_waiter_with_token_left", 0) + blocked_with_token
+    if len(il) < len(lines) or rc != 0:
+        cmd = lines[min(len(il), len(lines) - 1)]
+        why = "hang (timeout)" if rc == -999 else f"rc={rc}"
+        ctx.violation("csem-harness-" + ("hang" if rc == -999 else "crash"),
+                      f"C20 ({label}): custom-semaphore harness {why} at `{cmd}`: {ierr[-600:]}", {"mode": "csem", "line": cmd})
+        return False
+    if not diff:
+        return ok
+    ml = drv_csem(ctx, text).splitlines()
+    for cmd, o, m in zip(lines, il, ml):
+        if o != m:
+            if "csem" not in ctx.diff_ops:
+                ctx.broken_correspondence("CustomSem model vs uv__custom_sem_* in src/unix/thread.c",
+                                          f"`{cmd}`: impl `{o}` model `{m}`")
+                ctx.diff_ops.add("csem")
+            return False
+    if len(ml) != len(lines):
+        ctx.broken_correspondence("CustomSem model vs uv__custom_sem_* in src/unix/thread.c",
+                                  f"driver printed {len(ml)} lines for {len(lines)}")
+        return False
+    ctx.validated(len(lines))
+    for cmd, o in zip(lines, il):
+        ev = o.split("|")[0]
+        if "T0" in ev or "K" in ev or "W" in ev:        # a busy trylock, a cond_wait wake-up, a spurious wake-up
+            ctx.nontrivial("csem/" + cmd[5:])
+    return ok
+
+
 # ------------------------------------------------------------------ main
 def run(ctx):
     ctx.diff_ops = set()
@@ -643,13 +856,16 @@ def run(ctx):
     ctx.trusted += ["tools/gen_lean.py (clang AST -> Lean for the loop-free kernels thread_stack_size, cond_deadline, the try*/timedwait/barrier return-code tables) and UvModel/CSem.lean"]
     # Tie A: regenerate the kernels from /repo; GenEq/C20 re-proves them equal to ThreadArith
     gen_ok = ctx.gen_lean(need=["C20"])
-    lean_ok = ctx.require_lean(["UvModel.GenEq.C20", "UvModel.Props.C20"]) and gen_ok
+    lean_ok = ctx.require_lean(["UvModel.GenEq.C20", "UvModel.Props.C20", "UvModel.Props.C20Sem"]) and gen_ok
     sexe = ctx.harness("c20_scripted", ["harness/c20_threads.c"])
     rexe = ctx.harness("c20_real", ["harness/c20_threads.c"], extra=["-DC20_REAL"])
+    cexe = ctx.harness("c20_csem", ["harness/c20_csem.c"])      # gnu_get_libc_version() = "2.17": the custom semaphore
     if ctx.replay:
         rp = json.loads(Path(ctx.replay).read_text())["replay"]
         if rp.get("mode") == "scripted" and sexe:
             run_scripted(ctx, sexe, [rp["line"]], "replay")
+        elif rp.get("mode") == "csem" and cexe:
+            run_csem(ctx, cexe, [rp["line"]], "replay", shrink=False)
         elif rp.get("mode") == "real" and rexe:
             if rp["line"].startswith("create-rlim"):
                 default_rule_real(ctx, rexe, [rp["line"].split()[1]])
@@ -677,6 +893,16 @@ def run(ctx):
         ctx.notes["clock_sessions"] = nsess
         ctx.sample({"scripted": [codes[20], st[5], st[-1], tw[3], tw[-1]]})
         ctx.notes["scripted_lines"] = {"codes": len(codes), "stack": len(st), "timedwait": len(tw)}
+    if cexe:
+        corpus = VERIF / "corpus" / "C20" / "csem.txt"
+        if corpus.exists():
+            run_csem(ctx, cexe, [l for l in corpus.read_text().splitlines() if l.strip() and not l.startswith("#")], "custom semaphore corpus")
+        ex = gen_csem_exhaustive(thorough)
+        run_csem(ctx, cexe, ex, "custom semaphore, every schedule of 2 threads")
+        rnd = gen_csem_random(rng, ctx.scale(4000, 150000))
+        run_csem(ctx, cexe, rnd, "custom semaphore, random programs and schedules")
+        ctx.notes["csem_cases"] = {"exhaustive": len(ex), "random": len(rnd)}
+        ctx.sample({"csem": [ex[len(ex) // 2], rnd[0], rnd[-1]]})
     if rexe:
         prog = real_program(rng, ctx.scale(8, 24), ctx.scale(6000, 20000), ctx.scale(1, 6))
         run_real(ctx, rexe, prog, "contention")
@@ -711,6 +937,10 @@ def run(ctx):
             run_scripted(ctx, sexe, L, "search", diff=False)
             if ctx.violations:
                 break
+        if cexe and not ctx.violations and ("csem" in ctx.diff_ops or not lean_ok):
+            for _ in range(10):
+                if ctx.violations: break
+                run_csem(ctx, cexe, gen_csem_random(srng, 8000), "search: custom semaphore", diff=False)
         if rexe and not ctx.violations:
             run_real(ctx, rexe, create_sweep(srng, 400), "search: create sweep")
             for _ in range(5):
@@ -722,4 +952,7 @@ def run(ctx):
                        "4096/16384/65536 x PTHREAD_STACK_MIN x RLIMIT_STACK, then random; deadline: now/timeout pairs around "
                        "10^9 boundaries and around now+timeout = 2^64, then random. non-trivial = request (or rlimit) not a "
                        "multiple of the page size, timeout not a whole second, every mapped code; distinct by (request, pagesize) / "
-                       "(wrapper, code). real: N threads x M rounds per primitive with invariant counters; distinct by op line")
+                       "(wrapper, code). real: N threads x M rounds per primitive with invariant counters; distinct by op line. custom semaphore: "
+                       "every schedule string of length 7 (thorough 9) over 2 threads x small programs over wait/trywait/post x initial "
+                       "value 0..1 (0..2), then random 2-5 threads x 0-4 operations x schedules of up to 40 choices with spurious "
+                       "wake-ups; non-trivial = the trace contains a busy trylock, a cond_wait wake-up or a spurious wake-up")
